@@ -70,10 +70,13 @@ QueryOk(cfg, q, chosen) ==
   LET A == Allowed(cfg, q) IN
   \A c \in RangeS(chosen) : IF A = {} THEN c = 0 ELSE c \in A
 
+(* end to end the locations named n2 forward to an upstream without a healthy server: a request that belongs to such a location
+   gets a 5xx, it is not handed to a less specific location *)
 E2EOk(cfg, e) ==
   LET A == Allowed(cfg, e.q) IN
   IF A = {} THEN e.loc = 0 /\ e.contacts = 0 /\ e.status >= 500
-  ELSE e.loc \in A /\ e.contacts = 1 /\ e.status = 200
+  ELSE \/ e.loc \in A /\ cfg[e.loc].name # "n2" /\ e.contacts = 1 /\ e.status = 200
+       \/ (\E i \in A : cfg[i].name = "n2") /\ e.loc = 0 /\ e.contacts = 0 /\ e.status >= 500
 
 Ok(o) ==
   /\ \A i \in DOMAIN o.answers : QueryOk(o.case.cfg, o.case.queries[i], o.answers[i])
